@@ -1,6 +1,6 @@
 (* Protocol entry point of the extracted model: one command + hex arguments in, one JSON line out. *)
 From Coq Require Import String Ascii List ZArith NArith Bool.
-From SDP Require Import Base PyStr Regex Json Codec LR RealTables Lexer Actions Parse Engine Seq Output Pre Api Entity.
+From SDP Require Import Base PyStr Regex Json Codec LR RealTables Lexer Actions Parse Engine Seq Output Pre Api Entity Table.
 Import ListNotations.
 Open Scope string_scope.
 
@@ -59,6 +59,14 @@ Definition dispatch (cmd : string) (args : list string) : string :=
         JObj [("wf", JBool (Entity.wf e));
               ("lexemes", JArr (map (fun lx => JArr [JStr (fst lx); JStr (snd lx)]) (Entity.lexemes e)));
               ("denote", json_of_pyval (Entity.denote (String.eqb norm "1") e))]
+      end
+  | "tab_spec", norm :: rest =>
+      match table_of_args rest with
+      | None => JObj [("unsupported", JStr "bad table args")]
+      | Some t =>
+        JObj [("wf", JBool (Table.wf (String.eqb norm "1") t));
+              ("lexemes", JArr (map (fun lx => JArr [JStr (fst lx); JStr (snd lx)]) (Table.lexemes t)));
+              ("denote", json_of_pyval (Table.denote (String.eqb norm "1") t))]
       end
   | "seq_spec", norm :: rest =>
       match seq_of_args rest with
